@@ -30,6 +30,7 @@ const dispatchIDs = 0x120 * 2
 
 func init() {
 	Register(&Scenario{
+		Pools:  true,
 		Name:   "session",
 		Props:  []string{"C10"},
 		Bubble: true,
@@ -152,6 +153,7 @@ func runSession(r *core.Run) {
 		r.Event("client sends %s cmd=%#x seq=%v", site, cmd, hseq)
 	}
 	helperPackets(r, proto)
+	literalRequests(r, proto, reqTypes)
 	if len(window) == 0 {
 		return
 	}
@@ -438,6 +440,12 @@ func helperPackets(r *core.Run, proto *spec.Proto) {
 		r.Fail("C10", "panic", p.Frame, p.Kind, "%s(%d): %s", h.name, seq, p.Value)
 		return
 	}
+	// the packet is queued; before it is looked at, other helper packets are built (other connections' heartbeats)
+	for k := c.Intn(3); k > 0; k-- {
+		o := hs[c.Intn(len(hs))]
+		r.Call(o.name, func() { _ = o.f(seq + uint32(k)*7919) })
+		r.Probe("helper_packet_retained")
+	}
 	l, cmd, hseq, ok := headerBits(proto, b)
 	if !ok || int(l) != len(b) {
 		r.Fail("C10", "constructor", h.name, "length", "%d octets, length prefix %d", len(b), l)
@@ -458,5 +466,49 @@ func helperPackets(r *core.Run, proto *spec.Proto) {
 	}
 	if got := pdu.GetCommand().ToUint32(); got != cmd {
 		r.Fail("C10", "command", h.site, "constructor", "GetCommand()=%#x but the packet header carries %#x", got, cmd)
+	}
+}
+
+// literalRequests: a request built as a plain struct value whose header carries
+// no command id yet (callers fill in only the sequence number and rely on the
+// type): the response it generates is still "a PDU obtained from the library",
+// so its reported command must equal the command id in its encoded header and
+// it must be the protocol's response type for that request.
+func literalRequests(r *core.Run, proto *spec.Proto, reqTypes []*spec.PDU) {
+	c := r.C
+	pd := reqTypes[c.Intn(len(reqTypes))]
+	req := ctor[pd.Site()]()
+	seq := uint32(c.Uint64())
+	req.SetSequenceID(seq)
+	site := pd.Site()
+	var resp protocol.PDU
+	if p := r.Call(site+".GenEmptyResponse", func() { resp = req.GenEmptyResponse() }); p != nil {
+		r.Fail("C10", "panic", p.Frame, p.Kind, "GenEmptyResponse on a zero-valued %s: %s", site, p.Value)
+		return
+	}
+	if resp == nil {
+		r.Fail("C10", "resp-type", site, "nil", "a request generated no response")
+		return
+	}
+	want := proto.Name + "." + pd.Resp
+	if typeSite(resp) != want {
+		r.Fail("C10", "resp-type", site, "type", "GenEmptyResponse returned %s, the protocol's response is %s", typeSite(resp), want)
+		return
+	}
+	var b []byte
+	var err error
+	if p := r.Call(want+".IEncode", func() { b, err = resp.IEncode() }); p != nil || err != nil {
+		return
+	}
+	_, cmd, _, ok := headerBits(proto, b)
+	if !ok {
+		return
+	}
+	r.Probe("response_of_literal_request")
+	if got := resp.GetCommand().ToUint32(); got != cmd {
+		r.Fail("C10", "command", want, "generated-from-literal", "the response generated for a %s literal reports GetCommand()=%#x but its encoded header carries %#x", site, got, cmd)
+	}
+	if resp.GetSequenceID() != seq {
+		r.Fail("C10", "resp-seq", site, "getter-literal", "response GetSequenceID()=%d, request %d", resp.GetSequenceID(), seq)
 	}
 }
